@@ -447,6 +447,7 @@ Inductive input :=
 | IFail (i : input)           (* i happens while Bind.Send returns an error for every datagram *)
 | IShiftKeys (d : N)          (* harness hook VerifShiftKeypairAges: every keypair becomes d older *)
 | ISetAttempts (n : N)        (* harness hook VerifSetHandshakeAttempts: handshakeAttempts := n *)
+| IShiftHs (d : N)            (* harness hook VerifShiftHandshakeTimes: lastSentHandshake becomes d older *)
 | IConfigure.                 (* UAPI set creating the peer (with its persistent keepalive) on a device that is up *)
 
 (* An event: when it runs, what it is, and the two jitter draws (milliseconds). *)
@@ -464,6 +465,7 @@ Fixpoint step_in (now jr jn : N) (i : input) (s : st) : st * list output :=
   | IFail i' => let '(s', o) := step_in now jr jn i' s in (s', map fail_of o)
   | IShiftKeys d => (shiftKeys d s, [])
   | ISetAttempts n => (set_attempts s n, [])
+  | IShiftHs d => (set_last_sent_hs s (last_sent_hs s - d), [])
   | IConfigure => configure now jr jn s
   end.
 
